@@ -577,7 +577,8 @@ thm("C07", ["C07", "C07V"], ["C07_skinny128", "C07_skinny64", "parallelBlocks_eq
             "C07_vec256_block", "C07_vec256_spec", "vecEnc8_block", "vecDec8_block",
             "C07_vec64_block", "C07_vec64_spec", "vecEnc8h_block", "vecDec8h_block", "C12_vec_unaligned_paths",
             "C07_mantis_vec128_block", "C07_mantis_vec128_spec", "SkinnyVerif.Lemmas.vecMantis8_lane"])
-PROPS["C07"]["modules"] += ["SkinnyVerif.Properties.C07M", "SkinnyVerif.Properties.C07L"]
+PROPS["C07"]["modules"] += ["SkinnyVerif.Properties.C07M", "SkinnyVerif.Properties.C07L", "SkinnyVerif.Properties.C07ML"]
+PROPS["C07"]["theorems"] += [P + "mantisBatched_eq", P + "C07_mantis_whole_buffer"]
 PROPS["C07"]["theorems"] += [P + "parallelBatched_eq_ecb", P + "C07_vec128_whole_buffer", P + "C07_vec256_vec64_whole_buffer", P + "batch_is_ecb", P + "ecb_append"]
 _c07 = PROPS["C07"]
 thm("C08", ["C08"], ["C08_no_leak_events", "C08_table_complete"])
